@@ -4,7 +4,7 @@
    Gen/KCheck.v: the _checktype chains) and the NumPy cast models of
    Model/Store.v.  No proofs here. *)
 From Coq Require Import ZArith List Bool String.
-From DM Require Import Base.PyVal Spec.Nf Spec.Arith Gen.KCheck Gen.KArith Model.Store.
+From DM Require Import Base.PyVal Base.CsvPy Spec.Nf Spec.Arith Gen.KCheck Gen.KArith Gen.KCsv Model.Store.
 Import ListNotations.
 Open Scope Z_scope.
 
@@ -12,21 +12,13 @@ Section ArithModel.
   Variable num_op : binop -> num -> num -> num.
   Variable fstr : fl -> string.
 
-  (* py3compat.safe_decode on a cell value: str as is; Integral -> str(int(s));
-     try: assert int(s) == float(s); str(int(s))  except: try: str(float(s)) except: pass;  finally str(s) *)
+  (* py3compat.safe_decode on a cell value: the regenerated decision chain of Gen/KCsv.v (k_safe_decode: str as is;
+     Integral -> str(int(s)); try: assert int(s) == float(s); str(int(s))  except: try: str(float(s)) except: pass;
+     finally str(s)) applied to the cell as a Python object; it always yields a str *)
   Definition safe_decode (v : val) : string :=
-    match v with
-    | VStr s => s
-    | VInt z => dec z
-    | _ =>
-        let s := pyv_of_val v in
-        match bind (b_int s) (fun i => bind (b_float s) (fun f => Ok (py_eq i f, i))) with
-        | Ok (true, PInt z) => dec z
-        | _ => match b_float s with
-               | Ok (PFloat f) => fstr f
-               | _ => "None"             (* str(None) *)
-               end
-        end
+    match pyv_text (k_safe_decode fstr (pyv_of_val v)) with
+    | Ok s => s
+    | Raise _ => EmptyString             (* never reached (safe_decode_text) *)
     end.
 
   (* operator.X applied to two Python numbers held in cells *)
